@@ -104,6 +104,10 @@ impl Check for GraphCheck {
             ctx.count("source_larger_than_stream");
         }
         ctx.hash.add_bytes(format!("{}", recipe.describe()).as_bytes());
+        let second_use = src.chance(1, 8);
+        if second_use {
+            ctx.count("graph_run_again_after_adding_blocks");
+        }
         for order in orders {
             let topo = order.iter().enumerate().all(|(i, &o)| i == o);
             if order.iter().rev().enumerate().all(|(i, &o)| i == o) && n > 1 {
@@ -126,7 +130,22 @@ impl Check for GraphCheck {
                     for &i in &order {
                         g.add(blocks[i].take().unwrap());
                     }
-                    let r = g.run().map_err(|e| e.to_string());
+                    let mut r = g.run().map_err(|e| e.to_string());
+                    // Second use of the same graph: more blocks added after a
+                    // run, then run() again. The new chain must be processed;
+                    // what the first run delivered stays as it is.
+                    if second_use && r.is_ok() {
+                        let data: Vec<u8> = (0..200u32).map(|i| (i * 7) as u8).collect();
+                        let (s2, o2) = rustradio::blocks::VectorSource::new(data.clone());
+                        let k2 = rustradio::blocks::VectorSink::new(o2, 1000);
+                        let hook = k2.hook();
+                        g.add(Box::new(s2));
+                        g.add(Box::new(k2));
+                        r = g.run().map_err(|e| format!("second run() on the same graph, after two more blocks were added: {e}"));
+                        if r.is_ok() && hook.data().samples() != &data[..] {
+                            r = Err(format!("second run() on the same graph: the chain added after the first run delivered {} of 200 samples", hook.data().samples().len()));
+                        }
+                    }
                     (r, built.all_sink_bytes())
                 })
             });
